@@ -84,7 +84,7 @@ def _wild_match(want, got):
     if len(rest_w) != len(rest_g):
         return False
     for w in rest_w:
-        if pg.WILD not in w[2]:
+        if pg.WILD not in w[2] and pg.WILD2 not in w[2]:
             return False
         hit = next((g for g in rest_g if g[0] == w[0] and g[1] == w[1] and pg.matches(w[2], g[2])), None)
         if hit is None:
